@@ -19,15 +19,12 @@ def route(case):
     if case.startswith("W "):
         return "radius"
     return "aaa_race" if case.startswith("Sr ") else "aaa"
-# Model variants v<s><o><l><p><t><q><g> (fix_sent, fix_order, fix_l2stop, fix_prune, fix_l2tp, fix_presend, fix_ghost);
-# "repaired" = v1111111, "head" = v1011011 = /repo HEAD.  Two findings are not repaired in /repo: o (provider calls sent from
-# unordered goroutines; no patch) and t (lifecycle events of PPP-over-L2TP sessions are not decoded;
-# fixes/C09_l2tp_lifecycle.patch).  Everything else is fixed in /repo (7e92d8e, e0693a6, d70a5ae, 9b87063, d95fed1, 7faf7f9,
-# 5478db8, 4de5a6b): a regression to any of those matches no variant and is reported as a VIOLATION.
-VARIANTS = ["repaired", "v1011111", "v1111011", "head"]
-FLAGS = {"repaired": "", "v1011111": "o", "v1111011": "t", "head": "ot"}
-SIG = {"o": "start-stop-interim-sent-from-unordered-goroutines",
-       "t": "handleSessionLifecycle-l2tp-payload-not-decoded"}
+# Model variants: "repaired" = /repo HEAD plus ordered per-session delivery of the provider calls (the one finding still
+# open, no patch); "head" = /repo HEAD.  Everything else is fixed in /repo (7e92d8e, e0693a6, d70a5ae, 9b87063, d95fed1,
+# 7faf7f9, 5478db8, 4de5a6b, a967234): a regression to any of those matches neither variant and is reported as a VIOLATION.
+VARIANTS = ["repaired", "head"]
+FLAGS = {"repaired": "", "head": "o"}
+SIG = {"o": "start-stop-interim-sent-from-unordered-goroutines"}
 # the model driver receives the implementation's line: for a session whose uint64 cumulative has wrapped (outside the
 # property's domain) the implementation's counter VALUES are taken as they are from that operation on (ocaml: mask_line)
 MODEL_NEEDS_IMPL = True
